@@ -322,13 +322,22 @@ func (g *gen) httpOp() {
 	case x < 32:
 		p += ".flv"
 	case x < 55:
-		p += ".m3u8"
+		if r.Chance(8) {
+			p += g.pick([]string{".M3U8", ".M3u8"})
+		} else {
+			p += ".m3u8"
+		}
 	case x < 88:
 		seq := strconv.Itoa(1 + r.Intn(3))
 		if r.Chance(12) {
 			seq = g.pick([]string{"0", "4", "abc", "+2", "-1", "03", ""})
 		}
-		p += "/" + seq + ".ts"
+		ext := ".ts"
+		if r.Chance(12) {
+			// odd-case extensions: the permission step and the handler must agree on what a segment request is
+			ext = g.pick([]string{".TS", ".Ts", ".tS"})
+		}
+		p += "/" + seq + ext
 	case x < 91:
 		p = "/streams" + sp + "/crossdomain.xml"
 	case x < 94:
